@@ -78,7 +78,7 @@ CHECKS = {
     "C08": dict(
         category="exploration",
         technique="bounded-exhaustive enumeration of (host position x unsupported construct) injections and illegal placements, each converted under 8 option combinations; accepted = violation; control hosts must convert",
-        text="20 statement hosts x 43 statement constructs, 40 expression hosts x 12 expression constructs and 39 illegal placements (break/continue outside loops, return outside functions, double starred targets - including in dead code): whenever ast.parse accepts the text, conversion must raise under every option combination; the same hosts with a harmless filler must convert.",
+        text="20 statement hosts x 43 statement constructs, 84 expression hosts (every expression slot of the grammar incl. annotations) x 12 expression constructs and 39 illegal placements (break/continue outside loops, return outside functions, double starred targets - including in dead code): whenever ast.parse accepts the text, conversion must raise under every option combination; the same hosts with a harmless filler must convert.",
         note="Trusted: ast.parse decides what is a case; any exception counts as rejection.",
         ref="DESIGN.md 3 C08",
     ),
